@@ -166,6 +166,9 @@ func (v *V) Render() string {
 	return "?"
 }
 
+// FunV is a function value bound in an environment.
+func FunV(s *Sig) *V { return &V{T: s.Ty(), Fn: s} }
+
 // scalarKeyRender: how a key prints inside a rendered map (strings and instants quoted).
 func (v *V) scalarKeyRender() string {
 	switch v.T.K {
